@@ -116,6 +116,9 @@ class Terms:
                     self.generic_visit(n)
                     return n
             body = [_G().visit(_copy.deepcopy(b)) for b in st.body]
+        elif isinstance(t, ast.Name):
+            # `for g in guesses:` filling a list by append (position = iteration order)
+            iv, gv, src = None, t.id, it
         else:
             raise Unknown(f'loop `for {norm(t)} in {norm(it)[:40]}` is not `for i, g in enumerate(...)`')
         elem = 'guess'
@@ -146,7 +149,8 @@ class Terms:
             raise Unknown(f'what the loop over `{norm(src)[:40]}` yields per guess is not derivable')
         lenv = dict(env)
         lenv[gv] = elem
-        lenv[iv] = ('index',)
+        if iv is not None:
+            lenv[iv] = ('index',)
         target = None
         for b in body:
             if isinstance(b, ast.Expr) and isinstance(b.value, ast.Constant):
@@ -162,6 +166,17 @@ class Terms:
                 fact['store_index_is_i'] = norm(sub.slice) == iv
                 fact['store_text'] = norm(sub)
                 val = self.ev(b.value, lenv, f, depth)
+                fact['index_in_value'] = contains_index(val)
+                env[target] = ('perguess', val)
+                continue
+            if isinstance(b, ast.Expr) and isinstance(b.value, ast.Call) and isinstance(b.value.func, ast.Attribute) and b.value.func.attr == 'append' \
+                    and isinstance(b.value.func.value, ast.Name) and env.get(b.value.func.value.id) == ('emptylist',) and len(b.value.args) == 1 and not b.value.keywords:
+                if target is not None:
+                    raise Unknown('two stores in the guess loop')
+                target = b.value.func.value.id
+                fact['store_index_is_i'] = True          # append: position in the list = iteration order
+                fact['store_text'] = norm(b.value)
+                val = self.ev(b.value.args[0], lenv, f, depth)
                 fact['index_in_value'] = contains_index(val)
                 env[target] = ('perguess', val)
                 continue
@@ -207,6 +222,8 @@ class Terms:
     def ev(self, e, env, f, depth):
         if isinstance(e, ast.Constant):
             return ('const', e.value)
+        if isinstance(e, ast.List) and not e.elts:
+            return ('emptylist',)
         if isinstance(e, ast.Name):
             if e.id in env:
                 return env[e.id]
@@ -249,6 +266,8 @@ class Terms:
                     return args[0]
                 if name in ('swapaxes', 'moveaxis', 'transpose') and args:
                     return args[0]          # layout only: the value term is unchanged (the layout is C07-D2's)
+                if name == 'stack' and args and isinstance(args[0], tuple) and args[0] and args[0][0] == 'perguess':
+                    return args[0]          # the list of per-guess values as one array: layout only (C07-D2)
                 raise Unknown(f'numpy.{name}')
             if isinstance(fn, ast.Attribute) and d is None:
                 # array method on a term
@@ -567,14 +586,48 @@ def key_round(prog, kf, cmod):
 
 
 # ----------------------------------------------------------------------------------------------------- D2
+def squeezing_functions(prog, modnames):
+    """keys of the functions / methods of the cipher modules whose result is `<array>.squeeze()` (no axis): directly, or by
+    returning the call of such a function (methods are matched by name inside the module)"""
+    funcs = [f for m in modnames for f in prog.funcs_in(m)]
+    out = set()
+    changed = True
+    while changed:
+        changed = False
+        for f in funcs:
+            if f.key in out:
+                continue
+            for r in ast.walk(f.node):
+                if not (isinstance(r, ast.Return) and isinstance(r.value, ast.Call)):
+                    continue
+                c = r.value
+                hit = False
+                if isinstance(c.func, ast.Attribute) and c.func.attr == 'squeeze' and not c.args and not c.keywords:
+                    hit = True
+                elif isinstance(c.func, (ast.Name, ast.Attribute)):
+                    rr = prog.resolve(f.mod, c.func)
+                    if rr and rr[0] == 'func' and rr[1].key in out:
+                        hit = True
+                    elif isinstance(c.func, ast.Attribute) and any(g.key in out and g.name == c.func.attr and g.cls is not None and g.mod is f.mod for g in funcs):
+                        hit = True
+                if hit:
+                    out.add(f.key)
+                    changed = True
+                    break
+    return out
+
+
 def d2(ctx, prog, regs):
     counter = [0]
+    squeezers = squeezing_functions(prog, [f'scared.{c}.base' for c in regs])
+    ctx.unit('squeezing cipher entry points', len(squeezers))
     sink = axes.make_sink(ctx, 'C07-D2', counter)
     names = {'data': set(), 'key': set()}
     n_loops = 0
     for cipher, (out, facts, tcache) in regs.items():
         for key, cf in sorted(facts.get('computes', {}).items()):
             ty = axes.Typer(prog, None, 'C07-D2', sink, {})
+            ty.squeezers = squeezers
             ps = cf.params
             ctx.check(len(ps) == 2 and ps[1] == 'guesses', 'C07-D2', f'{cf.key}::parameters', f'compute function takes {ps}: the attack wrapper binds the guess array by the name `guesses`',
                       f'parameters {ps}', cf.where())
